@@ -4,4 +4,4 @@ From RC Require Import Hdr Machine Inv Cover.
 Require Extraction.
 Require Import ExtrOcamlBasic.
 Extraction Language OCaml.
-Extraction "../ocaml/model.ml" init exec_top run_main get_fuse cur_flags should_collect inv_b no_bad exact_b no_panic_yet cover_b wf_prog.
+Extraction "../ocaml/model.ml" init exec_top run_main get_fuse cur_flags should_collect inv_b no_bad exact_b no_panic_yet cover_b maps_owned_b wf_prog.
